@@ -269,6 +269,12 @@ def project(inp, obs):
 
 def _dims_gt_points(inp, obs, failure):
     ds = inp['ds']
+    # KF-D5a shows, on such inputs, as a refusal (`...-raises`), as a shortened label list (`...-labels`) or as the
+    # two-value return of the free function.  Misplaced elements, wrong shapes or sizes, eager/lazy or toggle
+    # differences are NOT what the finding describes and are reported even on these inputs.
+    key = failure.split(':')[0]
+    if not (key.endswith('-raises') or key.endswith('-labels') or key == 'two-value-return'):
+        return False
     return any(len(s['sizes']) > gen.n_points(s) for s in (ds['pos'], ds['spec']))
 
 
